@@ -28,6 +28,7 @@ type c12Job struct {
 	D         int  `json:"d"`      // now - offset (clock moved without letting the rotation loop run)
 	PeerDown  bool `json:"peer_down"`
 	Datagrams bool `json:"datagrams"`
+	Rotations int  `json:"rotations"` // forced rotations before the requests: window offset 2016*Rotations, one archived week each
 }
 
 type httpCase struct {
@@ -193,7 +194,7 @@ func c12Run(j c12Job) *jobReport {
 		}
 		w.Cleanup()
 	}()
-	cfg := fmt.Sprintf("now=offset+%d peer_down=%v", j.D, j.PeerDown)
+	cfg := fmt.Sprintf("now=offset+%d peer_down=%v rotations=%d", j.D, j.PeerDown, j.Rotations)
 	if j.PeerDown {
 		as := signedServer("S1", false, "127.0.0.1", 1, w.GCA.Priv) // nothing listens on port 1
 		b, _ := json.Marshal(as)
@@ -206,6 +207,13 @@ func c12Run(j c12Job) *jobReport {
 	w.setNow(100)
 	w.S.VerifInjectDatagram(signedReport(1, 100, 500, w.A.Priv))
 	w.M.datagram(signedReport(1, 100, 500, w.A.Priv), 100)
+	for i := 0; i < j.Rotations; i++ {
+		w.S.VerifRotate()
+		w.M.rotate()
+		w.setNow(w.M.Offset + 100)
+		w.S.VerifInjectDatagram(signedReport(1, w.M.Offset+100, 500, w.A.Priv))
+		w.M.datagram(signedReport(1, w.M.Offset+100, 500, w.A.Priv), w.Now)
+	}
 	w.setNow(w.M.Offset + uint32(j.D))
 	alive := func(after string) bool {
 		if mu, smu := w.S.VerifTryLocks(); !mu || !smu {
@@ -407,6 +415,10 @@ func init() {
 			jobs = append(jobs, c12Job{D: d, PeerDown: true, Datagrams: i < 3 || tier == "thorough"})
 		}
 		jobs = append(jobs, c12Job{D: 0, PeerDown: false, Datagrams: false})
+		for _, d := range []int{0, 3600, 4032} {
+			jobs = append(jobs, c12Job{D: d, PeerDown: true, Datagrams: true, Rotations: 1})
+		}
+		jobs = append(jobs, c12Job{D: 100, PeerDown: true, Datagrams: true, Rotations: 2})
 		jobs = append(jobs, c12Job{Volume: true})
 		sh := <-shCh
 		line := ""
